@@ -464,9 +464,10 @@ def check_euclid(rec, case):
 def check_rect(rec, case):
     from pyunicorn.core.grid import Grid
     from pyunicorn.core.geo_grid import GeoGrid
-    axes = [np.array(a, dtype=float) for a in case["axes"]]
+    dts = case.get("dtypes") or ["float64"] * len(case["axes"])
+    axes = [np.array(a, dtype=dt) for a, dt in zip(case["axes"], dts)]      # the values are representable in their dtype
     dim = len(axes)
-    prod = G.cartesian_product(axes)
+    prod = G.cartesian_product([np.asarray(a, dtype=float) for a in axes])
     c = Ctx(rec, case, sum(1 for a in axes if len(a) >= 2) >= 2)
 
     def cols(seq):
@@ -580,6 +581,17 @@ def check_geonet(rec, case):
         awc = inawc + outawc if directed else inawc
         tawc = wtol(inawc, kin) + wtol(outawc, kout) if directed else wtol(inawc, kin)
         _close(c, "area_weighted_connectivity/definition", net.area_weighted_connectivity(), awc, tawc)
+        # the area of a node is the cosine of its own latitude whatever node weights the network carries
+        for nwt in ("irrigation", None, "assigned"):
+            if nwt == "assigned":
+                net.node_weights = np.linspace(0.5, 2.5, N)
+            else:
+                net.set_node_weight_type(nwt)
+            tag = "-node-weights-%s" % nwt
+            _close(c, "inarea_weighted_connectivity/definition" + tag, net.inarea_weighted_connectivity(), inawc, wtol(inawc, kin))
+            _close(c, "outarea_weighted_connectivity/definition" + tag, net.outarea_weighted_connectivity(), outawc, wtol(outawc, kout))
+            _close(c, "area_weighted_connectivity/definition" + tag, net.area_weighted_connectivity(), awc, tawc)
+        net.set_node_weight_type("surface")
 
         def cwd(M, k):
             num = (M * cosl[None, :] * O).sum(axis=1)
@@ -902,6 +914,26 @@ def build_cases(tier, seed):
                 vals = vals[::-1]
             axes.append([float(v) for v in vals])
         cases.append({"kind": "rect", "key": "rect-%d-s%d" % (r, seed), "axes": axes})
+    # axes of different dtypes (an integer axis next to fractional ones, float32 next to float64): the product is the
+    # product of the VALUES, whatever array type carries them
+    cases.append({"kind": "rect", "key": "rect-int-lat-float-lon", "axes": [[-60, -30, 0, 30, 60], [0.0, 22.5, 45.0, 67.5]],
+                  "dtypes": ["int64", "float64"]})
+    for r in range(16 if not thorough else 80):
+        dim = 2 + r % 3
+        axes, dts = [], []
+        for d in range(dim):
+            m = int(rng.randint(2, 6))
+            kind = ["int64", "int32", "float32", "float64"][int(rng.randint(4))] if d != (r % dim) else ["int64", "int32"][r % 2]
+            if kind.startswith("int"):
+                vals = np.sort(rng.choice(np.arange(-40, 41), size=m, replace=False)) + d * 1000
+            else:
+                vals = np.sort(rng.choice(np.arange(-40, 41), size=m, replace=False)) * 2.25 + 0.5 + d * 1000.0
+            axes.append([float(v) if not kind.startswith("int") else int(v) for v in vals])
+            dts.append(kind)
+        if all(k.startswith("int") for k in dts):
+            dts[-1] = "float64"
+            axes[-1] = [v + 0.25 for v in axes[-1]]
+        cases.append({"kind": "rect", "key": "rect-dtypes-%d-s%d" % (r, seed), "axes": axes, "dtypes": dts})
     # --- networks
     nnet = 60 if not thorough else 500
     for r in range(nnet):
